@@ -25,12 +25,13 @@ type Spec struct {
 	Collide bool // offer colliding bridger / external addresses and out-of-bounds stakes
 	Rewards bool // offer redelegate / withdraw-reward / edit-bridger
 	Objects bool // batches and outgoing bridge calls as objects to be confirmed, a late-joining oracle (o3), confirms by o1 only
+	Restart bool // offer a restart of the module from its exported genesis (real ExportGenesis / InitGenesis)
 	Focus   bool // narrowed alphabet (o2's life cycle only: blocks, removal, top-up, unbond; o1 confirms) for deeper histories
 	w       *world.World
 	os      []scen.Oracle // o1 (big stake), o2 (to be removed), o3 (approved later)
 }
 
-func (s *Spec) Name() string { return fmt.Sprintf("c13/%s/collide=%v/rewards=%v/focus=%v/objects=%v", s.Chain, s.Collide, s.Rewards, s.Focus, s.Objects) }
+func (s *Spec) Name() string { return fmt.Sprintf("c13/%s/collide=%v/rewards=%v/focus=%v/objects=%v/restart=%v", s.Chain, s.Collide, s.Rewards, s.Focus, s.Objects, s.Restart) }
 
 // Model: what each oracle transferred net of penalties paid, and how often it was paid out.
 type Model struct {
@@ -145,6 +146,19 @@ func (s *Spec) Ops(st *explore.State) []explore.Op {
 
 	if s.Objects {
 		ops = append(ops, s.objectOps(st)...)
+	}
+	if s.Restart {
+		ops = append(ops, explore.Op{Name: "RestartFromExportedGenesis", Run: func(c *explore.State) {
+			defer func() {
+				if r := recover(); r != nil {
+					c.Outcome = "panic"
+					c.Violate("genesis-round-trip", "C13/export-import-panics", fmt.Sprint(r))
+				}
+			}()
+			scen.RestartFromExportedGenesis(s.w, c.Ctx, s.Chain)
+			c.Accepted = true
+			c.Outcome = "ok"
+		}})
 	}
 	// governance list updates
 	if !k.IsProposalOracle(ctx, o3.Acct.Bech()) && !s.Focus {
@@ -531,6 +545,7 @@ func init() {
 				return []registry.Job{
 					{Name: "eth-full", Spec: &Spec{Chain: "eth", Collide: true, Rewards: true}, Depth: 6, ShardDepth: 2},
 					{Name: "bsc-lifecycle", Spec: &Spec{Chain: "bsc"}, Depth: 8, ShardDepth: 2},
+					{Name: "eth-lifecycle-with-restarts", Spec: &Spec{Chain: "eth", Rewards: true, Restart: true}, Depth: 7, ShardDepth: 2, NoConform: true},
 					{Name: "eth-o2-life-cycle-deep", Spec: &Spec{Chain: "eth", Focus: true}, Depth: 13, ShardDepth: 2},
 					{Name: "eth-batches-and-bridge-calls-to-confirm", Spec: &Spec{Chain: "eth", Objects: true}, Depth: 10, ShardDepth: 2},
 				}
@@ -538,6 +553,7 @@ func init() {
 			return []registry.Job{
 				{Name: "eth-lifecycle", Spec: &Spec{Chain: "eth"}, Depth: 7, ShardDepth: 2},
 				{Name: "eth-collide-rewards", Spec: &Spec{Chain: "eth", Collide: true, Rewards: true}, Depth: 5, ShardDepth: 2},
+				{Name: "eth-lifecycle-with-restarts", Spec: &Spec{Chain: "eth", Rewards: true, Restart: true}, Depth: 5, ShardDepth: 2, NoConform: true},
 				{Name: "eth-o2-life-cycle-deep", Spec: &Spec{Chain: "eth", Focus: true}, Depth: 9, ShardDepth: 2},
 				{Name: "eth-batches-and-bridge-calls-to-confirm", Spec: &Spec{Chain: "eth", Objects: true}, Depth: 8, ShardDepth: 2},
 			}
